@@ -43,6 +43,32 @@ func zzText(i int, pfx string) string {
 		return "S5F1 W\n<L <B x> <BOOLEAN y> <A s> <F4 q0> <I1 q1 " + d + "> <U1 q2> <F8 q3> <I8 q4> <U8 q5> <L <BOOLEAN q6 T> q7>>\n."
 	case 9: // k arbitrary bytes in front of a message (accepted alone only for some of them: white space, comments, ...)
 		return rt.String(pfx+"pre", rt.Param("k")) + "S1F2 H<-E\n<U1 " + d + ">\n."
+	case 14: // many messages with a body in one text (state that every message leaves behind adds up)
+		t := ""
+		for i := 0; i < 70; i++ {
+			t += "S1F" + rt.N("", 2*i+1)[1:] + " W H->E <L <U1 " + d + "> <L x>>. "
+		}
+		return t
+	case 15: // a message nested 24 deep, with a variable and an ellipsis at the bottom
+		t := "S4F1 W H<-E\n"
+		for i := 0; i < 24; i++ {
+			t += "<L "
+		}
+		t += "<U1 " + d + "> y ..."
+		for i := 0; i < 24; i++ {
+			t += ">"
+		}
+		return t + "\n."
+	case 16: // a very long line: a warning beyond column 131,072 (positions packed into one integer, 16-bit columns)
+		long := ""
+		for i := 0; i < 14; i++ {
+			long += "xxxxxxxxxx"
+		}
+		l2 := ""
+		for i := 0; i < 1000; i++ {
+			l2 += long
+		}
+		return "S1F1 W H->E <A \"" + l2 + "\">. S1F" + d + " ."
 	case 5: // two messages in one text, second without direction on the same line as its terminator
 		return "S1F1\n<A \"" + d + "\">\n.\nS1F2 ."
 	}
